@@ -4,7 +4,8 @@
    ECU.set_session / check_and_set_session / leave_session and the retrying UDS client; one action per await point.
 
    Environment (chosen in Init): an abstract ECU memory model -- per address of the sweep an answer class
-   (positive / NRC / requestOutOfRange / silent / silent-once), addresses whose probe makes the ECU fall back to its
+   (positive / NRC / requestOutOfRange / silent / silent-once / crash: silent and back in the default session; the
+   connection loss itself is the UDS client's business, properties C04 / C08), addresses whose probe makes the ECU fall back to its
    default session, how the session read behaves, how many session changes it accepts, whether it accepts ECUReset.
    The ECU reads requests with the ISO decoder of the contract module (never with the scanner's encoder).
 
@@ -61,8 +62,9 @@ Pdu(addr) ==
 \* ------------------------------------------------------------------ ECU side
 DscOk(s) == s = 1 \/ (s \in {1, 2, 3} /\ budget > 0)
 EcuClass(t, p) == IF ~Readable(C.svc, p) THEN LENERR ELSE ModelCode(EE, t, Strip(AddrField(C.svc, p)))
-EcuAnswer(t, p) == LET c == EcuClass(t, p) IN IF c = LATE THEN (IF lastSil = p THEN POSITIVE ELSE NONE) ELSE c
-EcuDrops(t, p) == t # 1 /\ Readable(C.svc, p) /\ Strip(AddrField(C.svc, p)) \in M.drop
+EcuAnswer(t, p) == LET c == EcuClass(t, p)
+                   IN IF c = LATE THEN (IF lastSil = p THEN POSITIVE ELSE NONE) ELSE IF c = CRASH THEN NONE ELSE c
+EcuDrops(t, p) == t # 1 /\ Readable(C.svc, p) /\ (Strip(AddrField(C.svc, p)) \in M.drop \/ EcuClass(t, p) = CRASH)
 
 \* ------------------------------------------------------------------ actions
 \* resp = await self.ecu.set_session(self.config.session); negative -> sys.exit(1)
